@@ -156,8 +156,12 @@ impl<Key, Value> CommandExecutor<Key, Value>
                     CommandType::Shutdown => {
                         info!("Received Shutdown command");
                         pair.acknowledgement.done(CommandStatus::Accepted);
+                        #[cfg(cached_verif)]
+                        crate::verif_rt::hook::event("worker_acked", "Shutdown", &[Arc::as_ptr(&pair.acknowledgement) as usize as i64]);
                         for command_acknowledgement_pair in receiver.iter() {
                             command_acknowledgement_pair.acknowledgement.done(CommandStatus::ShuttingDown);
+                            #[cfg(cached_verif)]
+                            crate::verif_rt::hook::event("worker_acked", "Drained", &[Arc::as_ptr(&command_acknowledgement_pair.acknowledgement) as usize as i64]);
                         }
                         drop(receiver);
                         break;
@@ -186,6 +190,8 @@ impl<Key, Value> CommandExecutor<Key, Value>
         match send_result {
             Ok(_) => Ok(acknowledgement),
             Err(err) => {
+                #[cfg(cached_verif)]
+                crate::verif_rt::hook::event("command_send_failed", &err.0.command.description(), &[Arc::as_ptr(&err.0.acknowledgement) as usize as i64]);
                 error!("received a SendError while sending command type {}", err.0.command.description());
                 Err(CommandSendError::new(err.0.command.description()))
             }
